@@ -307,6 +307,15 @@ func (i *Inst) runFrontStep(s *FrontScript, tw *TraceWriter, rng *rand.Rand, jar
 	case "basic-wrongpw":
 		set("basic", true, false, "")
 		one(az("Basic " + b64("7:wrong")))
+	case "basic-wrongpw-nonutf8":
+		// wrong passwords that differ from the right one only by bytes that are not valid UTF-8 (a client using another
+		// code page): they are wrong passwords, whatever a layer in between makes of the bytes
+		set("basic", true, false, "")
+		one(az("Basic " + b64([]string{"7:pw-7\xff", "7:pw\xe9-7", "7:\xc0pw-7", "7:pw-7\xf0\x28"}[rng.Intn(4)])))
+	case "basic-user-nonutf8":
+		// a user name that is the right one plus such bytes, with the right user's password: that user does not exist
+		set("basic", true, false, "")
+		one(az("Basic " + b64([]string{"7\xff:pw-7", "\xc07:pw-7", "7\xe9:pw-7"}[rng.Intn(3)])))
 	case "basic-unknown":
 		set("basic", true, false, "")
 		one(az("Basic " + b64("nobody:pw-nobody-x")))
